@@ -6,7 +6,7 @@ from harness.drivers import engine_cases_ctl as ecc
 
 ID = "C04"
 PROP_FILE = "Props/C04.v"
-THEOREMS = ["C04_cache_is_trace_spec", "C04_resume_pushes_cache", "C04_suspender_pushes_cache",
+THEOREMS = ["C04_cache_is_trace_spec", "C04_resume_pushes_cache", "C04_resume_replays_trace_spec", "C04_suspender_pushes_cache",
             "C04_rewind_plan_replays_in_order", "C04_helper_replays_in_order"]
 impl_batch = cc.impl_batch
 coq_term = cc.coq_term
